@@ -171,12 +171,41 @@ def run(ctx):
         ctx.ob('C09.r2', F.name, 'the value written as filter progress is the computed minimum', int(mbn[1:]) in
                {int(x) for x in re.findall(r'_(\d+)', ' '.join(reach_locals(du, val)))}, at=t.span)
 
+    # (F47) the filter syncing continues at stored progress + 1 in several places: the stored value is kept below u64::MAX whatever
+    # start numbers the user gives
+    bounded = False
+    for t, val in writes:
+        for o in du.origins(val, stop_at_calls=False):
+            if o[0] == 'call' and o[1] == '<u64 as Ord>::min':
+                mt = F.blocks[o[2]].term
+                for a in mt.args:
+                    oa = du.origins(a)
+                    if any(x[0] == 'op' and 'Sub' in str(x[1]) for x in oa) and not any(x[0] in ('call', 'param') for x in oa):
+                        bounded = True
+    ctx.ob('C09.r2', F.name, 'the stored filter progress is bounded below u64::MAX (min with a constant)', bounded,
+           failing_history=None if bounded else 'set_scripts([A @ u64::MAX]): min filtered = u64::MAX, the filter timer computes min_filtered + 1 and panics every 3 s, '
+           'also after a restart')
+    # (F59, known) get_scripts after a fork rollback: rollback_to_block(n) removes block n; the progress it records for the scripts
+    # must not claim block n (the replacement block n has not been examined)
+    RB = ctx.body('Storage::rollback_to_block')
+    rdu = DefUse(RB)
+    prog_ok = None
+    for c in [RB]:
+        for bid, k, t in P.call_keys(c):
+            if k in ('Batch::put', 'Batch::put_kv') and len(t.args) >= 3 and ('named_const', 'FILTER_SCRIPTS_KEY') in rdu.origins(t.args[1], stop_at_calls=False):
+                ov = rdu.origins(t.args[2], stop_at_calls=False)
+                prog_ok = any((x[0] == 'op' and 'Sub' in str(x[1])) or (x[0] == 'call' and 'saturating_sub' in x[1]) for x in ov)
+    if prog_ok is None:
+        raise Inconclusive('rollback_to_block: no put under FILTER_SCRIPTS_KEY found')
+    ctx.ob('C09.r5', RB.name, 'the script progress recorded by a rollback to block n is n - 1 (block n itself is removed)', prog_ok,
+           failing_history=None if prog_ok else 'fork rollback to block n: get_scripts reports n although the new block n is unexamined; set_scripts(get_scripts(), all) then sets '
+           'min filtered = n and the new block n is never filtered')
     # r3 clear after commit
     # (F48) the pending records are discarded in the batch that holds the scripts and the rewind: a separate write after the
     # commit leaves, when the process dies in between, a stale record whose completion marks the new scripts as filtered up to its end
     cl = P.call_sites(F, 'Storage::clear_matched_blocks')
     same_batch = False
-    if cl and commit:
+    if cl and commit and len(cl[0][1].args) > 1:
         a = {o[1] for o in du.origins(cl[0][1].args[1]) if o[0] == 'local'} | set(re.findall(r'_\d+', cl[0][1].args[1]))
         b = {o[1] for o in du.origins(commit[0][1].args[0]) if o[0] == 'local'} | set(re.findall(r'_\d+', commit[0][1].args[0]))
         roots = lambda xs: {x for v in xs for x in reach_locals(du, v if str(v).startswith('_') else '_%s' % v)}
